@@ -81,6 +81,27 @@ theorem mpz_com_ptr_spec {s : St} (h : Inv s) {dst src : Nat} (hd : dst < s.nv) 
       ∀ i, i < s.nv → i ≠ dst → s'.value i = s.value i :=
   mpz_com_ok h hd hs
 
+/-- mpz_neg / mpz_abs (neg.c, abs.c): `w = u` touches the size field only; otherwise realloc, then the pointers, then
+    the copy.  mpz_set (set.c): `w = u` copies the block onto itself. -/
+theorem mpz_neg_ptr_spec {s : St} (h : Inv s) {w u : Nat} (hw : w < s.nv) (hu : u < s.nv) :
+    ∃ s', mpz_neg w u s = .ok s' ∧ Inv s' ∧ s'.nv = s.nv ∧ s'.value w = -(s.value u) ∧
+      ∀ i, i < s.nv → i ≠ w → s'.value i = s.value i :=
+  mpz_negabs_ok false h hw hu
+
+theorem mpz_abs_ptr_spec {s : St} (h : Inv s) {w u : Nat} (hw : w < s.nv) (hu : u < s.nv) :
+    ∃ s', mpz_abs w u s = .ok s' ∧ Inv s' ∧ s'.nv = s.nv ∧ s'.value w = ((s.value u).natAbs : Int) ∧
+      ∀ i, i < s.nv → i ≠ w → s'.value i = s.value i :=
+  mpz_negabs_ok true h hw hu
+
+theorem mpz_set_ptr_spec {s : St} (h : Inv s) {w u : Nat} (hw : w < s.nv) (hu : u < s.nv) :
+    ∃ s', mpz_set w u s = .ok s' ∧ Inv s' ∧ s'.nv = s.nv ∧ s'.value w = s.value u ∧
+      ∀ i, i < s.nv → i ≠ w → s'.value i = s.value i :=
+  mpz_set_ok h hw hu
+
+example : look2 (mpz_neg 1 1 exSt2) 2 = .ok [(2 ^ 200 + 12345, 4, 0), (2 ^ 70 + 3, 2, 1)] := by decide
+example : look2 (mpz_abs 2 1 exSt2) 3 = .ok [(2 ^ 200 + 12345, 4, 0), (-(2 ^ 70 + 3), 2, 1), (2 ^ 70 + 3, 2, 4)] := by decide
+example : look2 (mpz_set 0 0 exSt2) 1 = .ok [(2 ^ 200 + 12345, 4, 0)] := by decide
+
 def exSt3 : St := ofInts [2 ^ 200 + 12345, -(2 ^ 70 + 3), 7, -(2 ^ 130)]
 -- res = op2 with a 2-limb block receiving a 4-limb result (x & -y, PN case): the block of res moves, op1_ptr is re-read
 example : look2 (mpz_and 1 0 1 exSt3) 2 = .ok [(2 ^ 200 + 12345, 4, 0), (2 ^ 200 + 12345, 4, 5)] := by
